@@ -541,6 +541,28 @@ def main():
         b = fn_body(bnb, "build_bnb_match")
         m = stmt(b, r"let gain_or_loss = ([^;]+);", "build_bnb_match: gain")
         out.append("def Gen.bnb_gain (net cost : Rat) : Rat := " + rust_expr(m.group(1), {"proceeds.net_proceeds": "net", "cost": "cost"}, "build_bnb_match: gain"))
+        # calculator.rs: a year's totals
+        b = fn_body(calc, "calculate_totals")
+        m = stmt(b, r"if net > Decimal::ZERO \{\s*total_gain \+= ([^;]+);\s*\} else if net < Decimal::ZERO \{\s*total_loss \+= ([^;]+);\s*\}", "calculate_totals: the two accumulations")
+        g = rust_expr(m.group(1), {"net": "net"}, "calculate_totals: gain")
+        lo = m.group(2).strip()
+        if lo != "net.abs()":
+            raise Missing(f"calculate_totals: a loss is accumulated as {lo!r}, not as net.abs()")
+        stmt(b, r"let net: Decimal = disposal\.matches\.iter\(\)\.map\(\|m\| m\.gain_or_loss\)\.sum\(\);", "calculate_totals: a disposal's net result is the sum of its legs' gains")
+        out.append(f"def Gen.totals_gain_step (total_gain net : Rat) : Rat := (if net > 0 then (total_gain + {g}) else total_gain)")
+        out.append("def Gen.totals_loss_step (total_loss net : Rat) : Rat := (if net > 0 then total_loss else if net < 0 then (total_loss + (if net < 0 then -net else net)) else total_loss)")
+        src = read(calc).split("#[cfg(test)]")[0]
+        nets = re.findall(r"net_gain: ([^,]+),", src)
+        if len(nets) != 2:
+            raise Missing(f"calculator.rs: expected two `net_gain:` fields (single-year and all-years builders), found {len(nets)}")
+        ng = all_same([rust_expr(x, {"total_gain": "total_gain", "total_loss": "total_loss"}, "net_gain") for x in nets], "net_gain")
+        out.append(f"def Gen.net_gain (total_gain total_loss : Rat) : Rat := {ng}")
+        # cgt-money: conversion of a foreign amount
+        b = fn_body("crates/cgt-money/src/amount.rs", "to_gbp")
+        m = stmt(b, r"Ok\(([^()]+)\)\s*\}$", "to_gbp: the converted amount")
+        out.append("def Gen.fx_to_gbp (amount rate_per_gbp : Rat) : Rat := " + rust_expr(m.group(1), {"self.amount": "amount", "rate_entry.rate_per_gbp": "rate_per_gbp"}, "to_gbp"))
+        stmt(b, r"if self\.is_gbp\(\) \{\s*return Ok\(self\.amount\);\s*\}", "to_gbp: sterling is returned as it is")
+        stmt(b, r"if self\.amount\.is_zero\(\) \{\s*return Ok\(Decimal::ZERO\);\s*\}", "to_gbp: a zero amount needs no rate")
         out.append(f"def Gen.merge_total (q p q' p' : Rat) : Rat := {t}")
         out.append(f"def Gen.merge_price (total qq : Rat) : Rat := {pe}")
         return out
